@@ -231,3 +231,37 @@ func TestWitnessCallerAddress(t *testing.T) {
 		t.Fatalf("WITNESS port %d not freed by Close: %v", p, err)
 	}
 }
+
+// port 0 fails only when the whole range 5000-5999 is covered for the requested IP: many sockets elsewhere do not count,
+// and a completely covered range does.
+func TestWitnessPortZero(t *testing.T) {
+	r, _ := NewRouter(&RouterConfig{CIDR: "1.2.3.0/24", LoggerFactory: logging.NewDefaultLoggerFactory()})
+	v, _ := NewNet(&NetConfig{StaticIPs: []string{"1.2.3.4", "1.2.3.5"}})
+	if err := r.AddNet(v); err != nil {
+		t.Fatal(err)
+	}
+	for p := 6000; p < 7000; p++ { // 1000 sockets outside the ephemeral range
+		if _, err := v.ListenUDP("udp", &net.UDPAddr{IP: net.ParseIP("1.2.3.4"), Port: p}); err != nil {
+			t.Fatal(err)
+		}
+	}
+	for p := 5000; p < 5100; p++ { // and some inside, on the other IP
+		if _, err := v.ListenUDP("udp", &net.UDPAddr{IP: net.ParseIP("1.2.3.5"), Port: p}); err != nil {
+			t.Fatal(err)
+		}
+	}
+	c, err := v.ListenUDP("udp", &net.UDPAddr{IP: net.ParseIP("1.2.3.4"), Port: 0})
+	if err != nil {
+		t.Fatalf("WITNESS port-0 bind on 1.2.3.4 failed (%v) although the whole range 5000-5999 is free for that IP", err)
+	}
+	_ = c.Close()
+	// fill the range for 1.2.3.4 completely: now, and only now, port 0 must fail
+	for p := 5000; p < 6000; p++ {
+		if _, err := v.ListenUDP("udp", &net.UDPAddr{IP: net.ParseIP("1.2.3.4"), Port: p}); err != nil {
+			t.Fatalf("WITNESS explicit bind 1.2.3.4:%d refused: %v", p, err)
+		}
+	}
+	if c, err = v.ListenUDP("udp", &net.UDPAddr{IP: net.ParseIP("1.2.3.4"), Port: 0}); err == nil {
+		t.Fatalf("WITNESS port-0 bind succeeded with port %d although every port of the range is taken", c.LocalAddr().(*net.UDPAddr).Port) //nolint:forcetypeassert
+	}
+}
